@@ -2,6 +2,7 @@ package ir
 
 import (
 	"fmt"
+	"strings"
 
 	"pgregory.net/rapid"
 )
@@ -42,6 +43,8 @@ type Profile struct {
 	PDeployExpr int
 	// IgnoreCancel: percent of steps that ignore the cancel signal (forces the closure timeout path).
 	IgnoreCancel int
+	// MaxDepth: nesting depth of loops (1 = loop bodies contain no loops).
+	MaxDepth int
 	// SoftHang: add a never-ending step that is referenced only through !soft-optional.
 	SoftHang bool
 }
@@ -80,6 +83,8 @@ type genCtx struct {
 	doc   Doc
 	prior []*Step // steps that may be referenced
 	item  bool
+	// shared holds sub-workflow files that several loops refer to (one instance per file name).
+	shared map[string]*Program
 }
 
 func (g *genCtx) pct(p int, label string) bool {
@@ -336,7 +341,35 @@ func (g *genCtx) subProgram(name string, depth int) *Program {
 		sg.prior = append(sg.prior, st)
 	}
 	last := sub.Steps[len(sub.Steps)-1]
-	sub.Outputs = []Output{{ID: "success", E: Obj(F("r", StepRef(last.ID, "outputs", "success", "a")), F("first", StepRef("b0", "outputs", "success")))}}
+	fields := []Field{F("r", StepRef(last.ID, "outputs", "success", "a")), F("first", StepRef("b0", "outputs", "success"))}
+	if depth < g.prof.MaxDepth && g.pct(60, "nested_loop") {
+		dir := ""
+		if g.pct(50, "nested_dir") {
+			dir = "deep/"
+		}
+		nname := fmt.Sprintf("%sd%d_%s", dir, depth+1, strings.ReplaceAll(name, "/", "_"))
+		if g.pct(30, "shared_nested") {
+			nname = fmt.Sprintf("%sshared%d.yaml", dir, depth+1)
+		}
+		if g.shared == nil {
+			g.shared = map[string]*Program{}
+		}
+		if existing, ok := g.shared[nname]; ok {
+			sub.Subs[nname] = existing
+		} else {
+			nested := g.subProgram(nname, depth+1)
+			g.shared[nname] = nested
+			sub.Subs[nname] = nested
+		}
+		k := rapid.IntRange(0, 2).Draw(g.t, "nested_items")
+		var its []*Expr
+		for j := 0; j < k; j++ {
+			its = append(its, Obj(F("v", Lit(int64(j+1)))))
+		}
+		sub.Steps = append(sub.Steps, &Step{ID: "inner", Kind: "foreach", Sub: nname, Items: &Expr{K: "list", Items: its}})
+		fields = append(fields, F("inner", StepRef("inner", "outputs", "success", "data")))
+	}
+	sub.Outputs = []Output{{ID: "success", E: Obj(fields...)}}
 	return sub
 }
 
